@@ -39,11 +39,12 @@ def h_dt(f, N, sem, io, mode):
     f = T(f)
     vs = sorted(variables(f) | set(io))
     uf = refsem.has(f, {'sqrt', 'exp', 'ln', 'pow', 'log'})
+    h = refsem.hor(f) if mode == 'pastified' else 0
 
     def body(env):
         A = env.A
         s = dt.make_spec('combined', 'out = ' + text(f), vs, io={v: t for v, t in io.items() if t in ('input', 'output')},
-                         semantics=_sem(sem))
+                         semantics=_sem(sem), pastify=(mode == 'pastified'))
         w = dt.trace(env, vs, N)
         if uf:
             for v in vs:
@@ -55,6 +56,13 @@ def h_dt(f, N, sem, io, mode):
             got = dt.online(s, w, N)
         env.observe('out', got)
         inputs, outputs = _io_sets(vs, io)
+        if mode == 'pastified':
+            # pastify() must keep the input/output declarations: update i reports the IA robustness at i-h on the prefix
+            res = []
+            for i in range(h, N):
+                pref = {v: w[v][:i + 1] for v in vs}
+                res.append(('ia-pastified@%d' % i, A.eq(got[i], rho(A, f, pref, i + 1, refsem.ia_pred(A, sem, inputs, outputs))[i - h])))
+            return res
         want = rho(A, f, w, N, refsem.ia_pred(A, sem, inputs, outputs))
         return dt.eq_list(A, 'ia', got, want)
     body.uf = uf
@@ -184,6 +192,15 @@ def obligations(tier, rng):
                     if quick and mon == 'ct-offline' and sem not in ('output_robustness', 'input_vacuity'):
                         continue
                     add(p, 'bare', p, sem, io, mon)
+    # (2c) pastified online monitors: the io declarations must survive pastify()
+    IMPL = ('implies', ('geq', X, ('const', 3.0)), ('geq', Y, ('const', 0.5)))
+    for f in [('always_t', IMPL, 0, 1), ('eventually_t', ('geq', X, C1), 0, 2), ('and', ('next', ('leq', X, C1)), ('geq', Y, C1)),
+              ('once_t', ('geq', ('add', X, Y), C1), 0, 1)]:
+        for sem in SEMS:
+            for xa, ya in itertools.product(('input', 'output'), repeat=2):
+                io = {'x': xa, 'y': ya, 'z': 'output'}
+                ioname = ''.join(io[v][0] for v in 'xyz')
+                out.append(ob('C06', 'dt', 'dt-pastified/%s/%s/%s' % (sem, ioname, text(f)), f=f, N=refsem.hor(f) + 3, sem=sem, io=io, mode='pastified'))
     # (3) seeded sample of the remaining product
     for i in range(100 if quick else 3000):
         p = rng.choice(allp)
